@@ -429,7 +429,7 @@ func (st *State) varargs(v Value) []Value {
 	n := int(s.Len.Val)
 	out := make([]Value, n)
 	for i := range out {
-		out[i] = arr.E[int(s.Off.Val)+i]
+		out[i] = arr.get(int(s.Off.Val)+i)
 	}
 	return out
 }
@@ -533,11 +533,9 @@ func (st *State) poolGet(n *Term) Value {
 	st.check(tt.Cmp(OpSLe, tt.Const(0, 64), n), "pool.GetBuf: negative size")
 	// cap = 2^bits.Len(n) - 1 in the model of DESIGN §3 is simplified to: cap >= len, contents arbitrary
 	maxN := st.upperBound(n, "pool.GetBuf")
-	bs := make([]*Term, maxN)
-	for i := range bs {
-		bs[i] = st.freshInternal("poolbyte", 8)
-	}
-	o := st.bytesObject(bs, "pool.GetBuf")
+	arr := &ArrayV{E: make([]Value, maxN)}
+	arr.Lazy = func(i int) Value { return st.freshInternal("poolbyte", 8) }
+	o := st.newObject(arr, nil, "pool.GetBuf")
 	st.poolBufs[o.ID] = true
 	slice := SliceV{Arr: Ptr{Obj: o}, Off: tt.Const(0, 64), Len: n, Cap: tt.Const(uint64(maxN), 64)}
 	holder := st.newObject(slice, nil, "pool.GetBuf holder")
